@@ -387,7 +387,7 @@ FORMULA_STRINGS = [
     ("density", "H2O@1"), ("natural_density", "D2O@1n"), ("isotope_density", "D2O@1.1i"),
     ("wt%", "50 wt% Co // Ti"), ("mass%_3", "33 mass% Co // 33% Ti // Fe"),
     ("vol%", "50 vol% H2O@1 // D2O@1.1"), ("layers", "1 um Si // 5 nm Cr // 10 nm Au"),
-    ("layers_isotope", "1 nm Fe[56] // 1 nm Ni[58]{2+}O"),
+    ("layers_isotope", "1 nm Fe[56] // 1 nm Ni[58]{2+}O@6.7"),
     ("mass_units", "5 g NaCl // 50 mL H2O@1"), ("grouped_mixture", "(50 wt% Co // Ti)@5"),
     ("mixture_of_mixture", "20 wt% (50 wt% Co // Ti) // Fe"),
     ("aa", "aa:ACDEFGHIKLMNPQRSTVWY"), ("aa_single", "aa:A"), ("dna", "dna:ACGT"),
